@@ -6,7 +6,8 @@ class, recorder queue) over an in-memory socket, one greenlet per session; plus 
 property oracle evaluated directly on what the implementation did.
 
 Out of scope here (C08/C09/C05): real TLS handshakes (a fake context swaps the socket
-object), the SASL exchanges themselves (only refused/accepted sequencing with PLAIN/LOGIN),
+object), the SASL exchanges themselves (only refused/accepted sequencing with PLAIN/LOGIN,
+including the clear-text gate: 504 unless the session is encrypted),
 byte-stream segmentation (every recv() returns one whole command line, one whole message
 body, or one whole AUTH answer), empty message bodies and bodies with dot lines."""
 import re, itertools, logging, base64
@@ -531,6 +532,9 @@ def path_of(arg, kw):
     i, q = m.end(), False
     while i < len(arg):
         c = arg[i:i + 1]
+        if q and c == b'\\':       # quoted-pair
+            i += 2
+            continue
         if c == b'"':
             q = not q
         elif c == b'>' and not q:
@@ -556,6 +560,8 @@ def malformed(line):
         return False
     if w in (b'DATA', b'RSET', b'QUIT', b'STARTTLS'):
         return a is not None
+    if w == b'AUTH':
+        return a is None
     return False
 
 
@@ -665,7 +671,7 @@ def alphabet(cfg, reduced=False):
     add(item(b'DATA', data=BIGBODY, big=True, name='DATA/over-size'))
     add(item(b'DATA now', data=BODY, name='DATA/arg'))
     for l in [b'EHLO', b'HELO', b'EHLO \xff\xfe', b'ehlo   B.example  ', b'MAIL', b'MAIL s@x.example', b'MAIL FROM:<s@x.example',
-              b'MAIL FROM:<\xffs>', b'mail from: <"a>b"@x.example> BODY=8BITMIME', b'MAIL FROM:<s@x.example> SIZE=10',
+              b'MAIL FROM:<\xffs>', b'mail from: <"a>b"@x.example> BODY=8BITMIME', b'MAIL FROM:<"a\\">b\\\\"@x.example> X=<"\\>', b'MAIL FROM:<s@x.example> SIZE=10',
               b'MAIL FROM:<s@x.example> SIZE=99999', b'MAIL FROM:<s@x.example> SIZE=abc', b'MAIL FROM:<s@x.example> SIZE',
               b'MAIL FROM:<s@x.example> size=-5 SIZE=1_0', b'RCPT', b'RCPT r@x.example', b'RCPT TO:<r@x.example', b'RCPT TO:<\xc3>',
               b'RCPT TO:<q@x.example> NOTIFY=NEVER', b'RSET', b'RSET x', b'NOOP', b'NOOP x', b'QUIT', b'QUIT x', b'STARTTLS x',
@@ -673,13 +679,16 @@ def alphabet(cfg, reduced=False):
         add(item(l))
     add(item(b'STARTTLS', tls=1, name='STARTTLS/ok'))
     add(item(b'STARTTLS', tls=0, name='STARTTLS/handshake-fails'))
+    # au = (5, x): the mechanism is one of slimta.smtp.auth.insecure_mechanisms (PLAIN, LOGIN): 504 on a
+    # clear-text session (the model decides that from its own `encrypted` flag), outcome x under TLS
     for v in V:
-        add(item(b'AUTH PLAIN ' + PLAIN_OK, v1=v, au=(0, b'user'), name='AUTH-PLAIN-initial/' + vname(v)))
-    add(item(b'AUTH PLAIN', resps=[PLAIN_OK], au=(0, b'user'), name='AUTH-PLAIN-challenge'))
-    add(item(b'AUTH LOGIN', resps=[base64.b64encode(b'user'), base64.b64encode(b'pass')], au=(0, b'user'), v1=550, name='AUTH-LOGIN/550'))
-    add(item(b'AUTH PLAIN', resps=[b'*'], au=(2,), name='AUTH-canceled'))
+        add(item(b'AUTH PLAIN ' + PLAIN_OK, v1=v, au=(5, (0, b'user')), name='AUTH-PLAIN-initial/' + vname(v)))
+    add(item(b'AUTH PLAIN', resps=[PLAIN_OK], au=(5, (0, b'user')), name='AUTH-PLAIN-challenge'))
+    add(item(b'AUTH LOGIN', resps=[base64.b64encode(b'user'), base64.b64encode(b'pass')], au=(5, (0, b'user')), v1=550, name='AUTH-LOGIN/550'))
+    add(item(b'AUTH PLAIN', resps=[b'*'], au=(5, (2,)), name='AUTH-canceled'))
     add(item(b'AUTH FOO', au=(3,), name='AUTH-unknown-mechanism'))
-    add(item(b'AUTH PLAIN !!!!', au=(1,), name='AUTH-bad-base64'))
+    add(item(b'AUTH PLAIN !!!!', au=(5, (1,)), name='AUTH-bad-base64'))
+    add(item(b'AUTH', name='AUTH-bare'))
     if reduced:
         keep = {'EHLO/keep', 'EHLO/550', 'HELO/keep', 'MAIL/keep', 'MAIL/550', 'RCPT/keep', 'RCPT/450', 'DATA/keep', 'DATA/have_data=550',
                 'DATA/queued=421', 'RSET', 'QUIT', 'STARTTLS/ok', 'AUTH-PLAIN-initial/keep', 'MAIL FROM:<s@x.example> SIZE=99999', 'FOO'}
@@ -877,7 +886,7 @@ def randomise(rng, a):
     return a
 
 
-PARSE_PIECES = [b'MAIL', b'mail', b'RCPT', b'Data', b'NOOP', b' ', b'  ', b'\t', b'\r', b'\x0b', b'FROM:', b'from:', b'TO:', b'<', b'>', b'"', b'a@b', b'=',
+PARSE_PIECES = [b'\\"', b'"', b'\\', b'>', b'MAIL', b'mail', b'RCPT', b'Data', b'NOOP', b' ', b'  ', b'\t', b'\r', b'\x0b', b'FROM:', b'from:', b'TO:', b'<', b'>', b'"', b'a@b', b'=',
                 b'SIZE', b'size=', b'10', b'1_0', b'+5', b'-', b'_', b'X-Y', b'BODY=8BITMIME', b'\xff', b'\xc3\xa9', b'1', b'.', b':', b'\\']
 
 
